@@ -228,6 +228,9 @@ def finish(res, level="proof"):
     """write evidence, print VIOLATION / KNOWN-FINDING lines, return exit status"""
     os.makedirs(os.path.join(VERIF, "evidence"), exist_ok=True)
     os.makedirs(os.path.join(VERIF, "replays"), exist_ok=True)
+    for f in os.listdir(os.path.join(VERIF, "replays")):
+        if f.startswith(res.pid + "-"):
+            os.remove(os.path.join(VERIF, "replays", f))
     status = 0
     for key, what in sorted(res.known_hits.items()):
         print("KNOWN-FINDING: property=%s %s" % (res.pid, what))
